@@ -2,6 +2,7 @@ import PlzVerif.Lemmas.Glob
 import PlzVerif.Lemmas.GlobWalk
 import PlzVerif.Lemmas.GlobCompose
 import PlzVerif.Lemmas.GlobParse
+import PlzVerif.Lemmas.Globber
 import PlzVerif.Generated.C21
 /-!
 C21  glob() returns exactly the files its documented semantics select.
@@ -44,7 +45,8 @@ def FactsOK : Bool :=
   decide (C21.hiddenPrefix = Glob.Facts.canon.hiddenPrefix) && decide (C21.hiddenWrap = Glob.Facts.canon.hiddenWrap) &&
   C21.builtinWhenNoDoubleStar && C21.matcherJoinsRoot && C21.regexFromFullPattern && C21.outDirOnlyAtDotRoot &&
   C21.subPackageSkip && C21.symlinkBucket && C21.filterSubPackages && C21.filterHidden && C21.filterExcludes &&
-  C21.inDirsComponentwise && C21.hiddenOnBaseName && C21.aspAppendsBuildNames && C21.aspCallsGlobWithPkgName
+  C21.inDirsComponentwise && C21.hiddenOnBaseName && C21.aspAppendsBuildNames && C21.aspCallsGlobWithPkgName &&
+  C21.hiddenPerMatch && !C21.hiddenAtWalk
 
 /-- Obligation a code change can break. -/
 theorem C21_facts_ok : FactsOK = true := by decide
@@ -52,7 +54,7 @@ theorem C21_facts_ok : FactsOK = true := by decide
 theorem facts_eq_canon : facts = Glob.Facts.withOpts opts := by
   have h := C21_facts_ok
   simp only [FactsOK, Bool.and_eq_true, decide_eq_true_eq] at h
-  obtain ⟨⟨⟨⟨⟨⟨⟨⟨⟨⟨⟨⟨⟨⟨⟨⟨⟨⟨h1, h2⟩, h3⟩, h4⟩, h5⟩, h6⟩, _⟩, _⟩, _⟩, _⟩, _⟩, _⟩, _⟩, _⟩, _⟩, _⟩, _⟩, _⟩, _⟩ := h
+  obtain ⟨⟨⟨⟨⟨⟨⟨⟨⟨⟨⟨⟨⟨⟨⟨⟨⟨⟨⟨⟨h1, h2⟩, h3⟩, h4⟩, h5⟩, h6⟩, _⟩, _⟩, _⟩, _⟩, _⟩, _⟩, _⟩, _⟩, _⟩, _⟩, _⟩, _⟩, _⟩, _⟩, _⟩ := h
   simp only [facts, Glob.Facts.withOpts, Glob.Facts.canon, opts] at *
   simp only [h1, ← h2, h3, h4, h5, h6]
 
@@ -349,5 +351,43 @@ theorem C21_exclude_exact (root : List Name) (raw : Name) (segs : List Seg) (e :
     (hlen : segs.length = (splitOnSlash raw).length) (graw : gpath (splitOnSlash raw) = true) :
     exclOneS opts root (nameOf (root ++ e)) raw segs = specExclOne raw segs e :=
   exclOneS_spec opts root raw segs e gr ge he hp hlen graw
+
+/-! ### several glob() calls of one BUILD file: the Globber's walk cache -/
+
+/-- The cache facts read on this run: what `walkedDirs` is keyed by, where hidden entries are dropped. -/
+def cfacts : CacheFacts :=
+  { keyHasHidden := C21.cacheKeyHasHidden, hiddenAtWalk := C21.hiddenAtWalk, hiddenPerMatch := C21.hiddenPerMatch }
+
+theorem cfacts_ok : cfacts.hiddenAtWalk = false ∧ cfacts.hiddenPerMatch = true := by
+  have h := C21_facts_ok
+  simp only [FactsOK, Bool.and_eq_true, Bool.not_eq_true'] at h
+  exact ⟨h.2, h.1.2⟩
+
+/-- **The walk cache is transparent: every glob() call of a BUILD file means what it means alone.**  The BUILD
+    language keeps one Globber per package scope, so the `glob()` calls of one file share `walkedDirs`.  For every
+    repository tree, every sequence of calls (any package directories, include and exclude patterns, `hidden` and
+    symlink flags, in any order, panicking calls included), the k-th call returns exactly what the same call returns
+    on a Globber of its own -- because (a) the cached listing depends on nothing but its key (hidden entries are not
+    dropped while walking) and (b) hidden filtering is applied per call (`C21_facts_ok`). -/
+theorem C21_cache_transparent (cfg : Cfg) (whole : Tree) (calls : List Call) :
+    runSeq cfacts facts cfg whole [] calls = calls.map (freshCall cfacts facts cfg whole) :=
+  runSeq_transparent cfacts (Or.inl cfacts_ok.1) facts cfg whole calls [] (inv_nil _ _ _ _)
+
+/-- ... and a call on a Globber of its own is `globAll` on the package directory, the function all the theorems above
+    are about: so `C21_exact_partial` speaks about every call of every sequence. -/
+theorem C21_call_is_globAll (cfg : Cfg) (whole : Tree) (c : Call) (t : Tree) (hs : subdir whole c.root = some t) :
+    freshCall cfacts facts cfg whole c = globAll facts cfg c.root t c.includes c.excludes c.hidden c.symlinks :=
+  freshCall_eq_globAll cfacts cfacts_ok.1 cfacts_ok.2 facts cfg whole c t hs
+
+/-- Counterfactual (why fact (a) matters): drop hidden entries while walking, keep the key `rootPath` only, and the
+    second call of `glob(["*"], hidden=True); glob(["*"])` returns the hidden file `.h` (and "."), while alone it
+    returns `a`; in the other order the `hidden=True` call loses `.h`. -/
+theorem C21_witness_cache_keyed_by_root_only :
+    runSeq ⟨false, true, false⟩ Glob.Facts.canon bcfg (.dir (fi ['a'] (fi ['.', 'h']))) []
+      [⟨[], [['*']], [['B']], true, true⟩, ⟨[], [['*']], [['B']], false, true⟩] = [some [['.'], ['.', 'h'], ['a']], some [['.'], ['.', 'h'], ['a']]] ∧
+    freshCall ⟨false, true, false⟩ Glob.Facts.canon bcfg (.dir (fi ['a'] (fi ['.', 'h']))) ⟨[], [['*']], [['B']], false, true⟩ = some [['a']] ∧
+    runSeq ⟨false, true, false⟩ Glob.Facts.canon bcfg (.dir (fi ['a'] (fi ['.', 'h']))) []
+      [⟨[], [['*']], [['B']], false, true⟩, ⟨[], [['*']], [['B']], true, true⟩] = [some [['a']], some [['a']]] := by
+  decide
 
 end PlzVerif.Props.C21
